@@ -242,15 +242,42 @@ def run(R, tier, configs=("dflt",)):
         delegates |= {x for x in ([st_] + list(g[:1])) if x in C.INTS}
         if not (st_ in C.INTS or (g and g[0] in C.INTS)) or "DecimalNumericProgramData" not in repr(conv[0].args[0]):
             good = False
-        v = ok_value(r)
-        if v is not None:
-            # Ok(value != 0)
-            d = v.desc if isinstance(v, SymV) else None
-            if not (isinstance(d, tuple) and d[0] == "binop" and d[1] == "Ne" and ("K", 0) in (d[2], d[3]) and "try_from" in repr(d)):
-                good = False
-        elif not M.outcome(r).startswith("Err("):
+        if ok_value(r) is None and not M.outcome(r).startswith("Err("):
             good = False
-    R.check(good, "R08.4", "bool:numeric", "numeric -> (integer conversion, i.e. rounded) != 0; its error is propagated", "a numeric boolean must be the rounded integer conversion compared with 0: %s" % [D.PathInfo(r).describe() for r in res], where=b.span)
+    # what the boolean conversion makes of each answer of the integer conversion it delegates to - decided by result, not by
+    # the shape of the code: n -> n != 0; "too large for the integer type" -> true (a magnitude beyond every integer
+    # still rounds to non-zero, defect F22); any other error -> that error
+    def m_delegate(eng_, st, fr, t, name, rname, args):
+        return st.extra["delegate"] if "delegate" in st.extra else NotImplemented
+    eng3 = fdai.Engine(P, u, inline=lambda n, r: r in D.INLINE_SMALL or "is_data" in r or r.startswith(("scpi::error::", "<scpi::error::", "<error::")) or (r.startswith("<") and "error::" in r), models=dict(M.FOLD_MODELS, **{"core::convert::TryFrom::try_from": m_delegate, "core::convert::TryInto::try_into": m_delegate}))
+    EC_ = "scpi::error::ErrorCode"
+    def mk_error(code):
+        rr = eng3.run(u.body("scpi::error::Error::new"), [EnumV(EC_, code, eng3.variant_discr(EC_, code))])
+        return rr[0].retval if len(rr) == 1 and rr[0].outcome == "return" else None
+    rows = [("0", fdai.mk_ok(K(0)), False), ("1", fdai.mk_ok(K(1)), True), ("-1", fdai.mk_ok(K(-1)), True), ("255", fdai.mk_ok(K(255)), True), ("isize::MIN", fdai.mk_ok(K(-2 ** 63)), True)]
+    for code in ("DataOutOfRange", "NumericDataError", "InvalidCharacterInNumber", "ExponentTooLarge"):
+        ev = mk_error(code)
+        rows.append(("Err(%s)" % code, fdai.mk_err(ev) if ev is not None else None, True if code == "DataOutOfRange" else "Err(%s)" % code))
+    badb = []
+    for label, answer, exp in rows:
+        if answer is None:
+            badb.append("%s: cannot construct the error value" % label)
+            continue
+        st3 = fdai.State()
+        st3.extra["delegate"] = answer
+        try:
+            rr = eng3.run(b, [M.token(eng3, "DecimalNumericProgramData")], st3)
+        except (fdai.TooManyPaths, RecursionError) as e:
+            badb.append("%s: undecided (%s)" % (label, type(e).__name__))
+            continue
+        gotv = []
+        for r in rr:
+            v = ok_value(r)
+            gotv.append(v.v if isinstance(v, K) else M.outcome(r))
+        if gotv != [exp]:
+            badb.append("integer conversion answers %s: boolean is %s, expected %s" % (label, gotv, exp))
+    good = good and not badb
+    R.check(good, "R08.4", "bool:numeric", "numeric -> (integer conversion, i.e. rounded) != 0; a magnitude beyond the integer type is true; any other error is passed on (%d answers of the delegate evaluated)" % len(rows), "a numeric boolean must be the rounded integer conversion compared with 0: %s" % (badb[:3] or [D.PathInfo(r).describe() for r in res]), where=b.span)
     # "rounded" is a statement about the integer conversion the boolean one hands the number to: every NR1/NR2/NR3 form
     # must reach its rounding fallback. That conversion's own rules (C07: float fallback shape, endpoints, error map)
     # are evaluated for the delegate type here, so that a change to the shared integer macro that changes what a
